@@ -25,6 +25,14 @@ fn d_ms() -> u64 {
     D.with(|d| d.get())
 }
 
+thread_local! {
+    /// how long (ms) the limiter under test has existed before the first event of a history
+    static AGE: std::cell::Cell<u64> = const { std::cell::Cell::new(0) };
+}
+
+/// so many other addresses attempt once each, at the same instant
+const CROWD: u32 = 9_000;
+
 /// advance alphabet in ms, relative to the window length: d/4, d/2, d-eps, d, d+eps, 2d-eps, 2d, 4d
 fn delta(i: u8) -> u64 {
     let d = d_ms();
@@ -36,6 +44,8 @@ const N_DELTAS: usize = 8;
 enum Ev {
     Att(u8),
     Adv(u8),
+    /// CROWD addresses that were never seen before attempt once each
+    Crowd,
 }
 
 fn ev_json(h: &[Ev]) -> Value {
@@ -44,6 +54,7 @@ fn ev_json(h: &[Ev]) -> Value {
             .map(|e| match e {
                 Ev::Att(k) => json!(format!("attempt({})", (b'A' + k) as char)),
                 Ev::Adv(i) => json!(format!("advance({}ms)", delta(*i))),
+                Ev::Crowd => json!(format!("crowd({CROWD})")),
             })
             .collect(),
     )
@@ -57,6 +68,8 @@ fn ev_parse(v: &Value) -> Vec<Ev> {
                     let s = e.as_str()?;
                     if let Some(r) = s.strip_prefix("attempt(") {
                         Some(Ev::Att(r.as_bytes()[0] - b'A'))
+                    } else if s.starts_with("crowd(") {
+                        Some(Ev::Crowd)
                     } else {
                         let ms: u64 = s.strip_prefix("advance(")?.strip_suffix("ms)")?.parse().ok()?;
                         Some(Ev::Adv((0..N_DELTAS as u8).find(|i| delta(*i) == ms)?))
@@ -108,7 +121,12 @@ impl PushMetricExporter for GaugeExporter {
 
 /// Replays a history on a fresh limiter (must be called inside a paused runtime).
 async fn replay(h: &[Ev], limit: usize, provider: Option<&SdkMeterProvider>, gauges: &mut Vec<i64>) -> Vec<Obs> {
-    let mut rl: RateLimiter<u8> = RateLimiter::new(Duration::from_millis(d_ms()), limit);
+    let mut rl: RateLimiter<u32> = RateLimiter::new(Duration::from_millis(d_ms()), limit);
+    let age = AGE.with(|a| a.get());
+    if age > 0 {
+        tokio::time::advance(Duration::from_millis(age)).await;
+    }
+    let mut next_stranger = 1_000u32;
     let mut t = 0u64;
     let mut out = Vec::with_capacity(h.len());
     for e in h {
@@ -118,8 +136,14 @@ async fn replay(h: &[Ev], limit: usize, provider: Option<&SdkMeterProvider>, gau
                 tokio::time::advance(Duration::from_millis(d)).await;
                 t += d;
             }
+            Ev::Crowd => {
+                for _ in 0..CROWD {
+                    let _ = rl.enqueue(next_stranger);
+                    next_stranger += 1;
+                }
+            }
             Ev::Att(k) => {
-                let ok = rl.enqueue(*k);
+                let ok = rl.enqueue(u32::from(*k));
                 out.push(Obs { key: *k, t, ok });
                 if let Some(p) = provider {
                     if ok {
@@ -169,8 +193,8 @@ struct Stats {
 fn viol(rep: &Report, key: &str, h: &[Ev], limit: usize, text: String) {
     rep.violation(Violation {
         key: key.to_string(),
-        text: format!("limit={limit} d={}ms history={} : {text}", d_ms(), ev_json(h)),
-        replay: json!({"history": ev_json(h), "limit": limit, "d_ms": d_ms()}),
+        text: format!("limit={limit} d={}ms uptime-before={}ms history={} : {text}", d_ms(), AGE.with(|a| a.get()), ev_json(h)),
+        replay: json!({"history": ev_json(h), "limit": limit, "d_ms": d_ms(), "age_ms": AGE.with(|a| a.get())}),
         weight: h.len() as u64,
     });
 }
@@ -218,7 +242,7 @@ async fn evaluate(rep: &Report, st: &Stats, h: &[Ev], limit: usize) {
     }
 
     // I1: decisions for key A equal those of the history with all other keys' attempts deleted
-    let only_a: Vec<Ev> = h.iter().copied().filter(|e| !matches!(e, Ev::Att(k) if *k != 0)).collect();
+    let only_a: Vec<Ev> = h.iter().copied().filter(|e| !matches!(e, Ev::Att(k) if *k != 0) && !matches!(e, Ev::Crowd)).collect();
     if only_a.len() != h.len() {
         let solo = replay(&only_a, limit, None, &mut none).await;
         st.runs.fetch_add(1, Ordering::Relaxed);
@@ -343,6 +367,7 @@ pub fn run(cli: Cli) -> ! {
 
     if let Some(case) = cli.replay.clone() {
         D.with(|d| d.set(case["d_ms"].as_u64().unwrap_or(8_000)));
+        AGE.with(|a| a.set(case["age_ms"].as_u64().unwrap_or(0)));
         let h = ev_parse(&case["history"]);
         let limit = case["limit"].as_u64().unwrap_or(1) as usize;
         let rt = paused_rt();
@@ -407,6 +432,77 @@ pub fn run(cli: Cli) -> ! {
     }
     D.with(|d| d.set(8_000));
 
+    // A limiter that has been up for a long time: the same enumeration (two levels shallower) on a limiter whose
+    // uptime crosses 2^31 ms and 2^32 ms (24.8 and 49.7 days) during the history.
+    let aged_depth = depth - 2;
+    for age in [(1u64 << 32) - 8_000, (1u64 << 31) - 8_000, (1u64 << 32) - 20_000] {
+        par_for(jobs.len() * limits.len(), |ji| {
+            D.with(|d| d.set(8_000));
+            AGE.with(|a| a.set(age));
+            let job = &jobs_ref[ji / limits.len()];
+            let limit = limits[ji % limits.len()];
+            let rt = paused_rt();
+            rt.block_on(async {
+                let mut leaves: Vec<Vec<Ev>> = vec![];
+                let mut nodes = 0u64;
+                let mut p = job.clone();
+                enumerate(&mut p, aged_depth, &mut nodes, &mut |h| leaves.push(h.to_vec()));
+                for h in &leaves {
+                    evaluate(rep_ref, st_ref, h, limit).await;
+                }
+            });
+            AGE.with(|a| a.set(0));
+        });
+    }
+
+    // A crowd: every history of one address (attempts and advances, 4 / 5 events) with thousands of addresses
+    // never seen before attempting once each at every possible position. Its decisions must be those of the
+    // same history without the crowd (I1), and the bounds hold.
+    let crowd_histories = AtomicU64::new(0);
+    {
+        let base_len = if cli.tier.thorough() { 5 } else { 4 };
+        let mut bases: Vec<Vec<Ev>> = vec![];
+        fn grow(p: &mut Vec<Ev>, len: usize, out: &mut Vec<Vec<Ev>>) {
+            if p.len() == len {
+                if matches!(p.last(), Some(Ev::Att(_))) {
+                    out.push(p.clone());
+                }
+                return;
+            }
+            p.push(Ev::Att(0));
+            grow(p, len, out);
+            p.pop();
+            if matches!(p.last(), Some(Ev::Att(_))) {
+                for i in 0..N_DELTAS as u8 {
+                    p.push(Ev::Adv(i));
+                    grow(p, len, out);
+                    p.pop();
+                }
+            }
+        }
+        grow(&mut vec![Ev::Att(0)], base_len, &mut bases);
+        let bases = &bases;
+        par_for(bases.len() * limits.len(), |ji| {
+            D.with(|d| d.set(8_000));
+            let base = &bases[ji / limits.len()];
+            let limit = limits[ji % limits.len()];
+            let rt = paused_rt();
+            rt.block_on(async {
+                for pos in 1..=base.len() {
+                    let mut h = base.clone();
+                    h.insert(pos.min(base.len()), Ev::Crowd);
+                    if pos == base.len() {
+                        // a crowd at the very end changes nothing that is observed: let the address come back once more
+                        h.push(Ev::Att(0));
+                    }
+                    evaluate(rep_ref, st_ref, &h, limit).await;
+                    crowd_histories.fetch_add(1, Ordering::Relaxed);
+                }
+            });
+        });
+    }
+    rep.set("histories_with_a_crowd_of_9000_addresses", json!(crowd_histories.load(Ordering::Relaxed)));
+
     // S1 pass, single-threaded
     {
         let rt = paused_rt();
@@ -446,7 +542,7 @@ pub fn run(cli: Cli) -> ! {
     rep.set("deletion_reruns", json!(st.deletions.load(Ordering::Relaxed)));
     rep.set("exhaustive", json!(true));
     rep.set("rule", json!(format!(
-        "every history of exactly {depth} events over attempt(A|B|C) and advance(d/4,d/2,d-1ms,d,d+1ms,2d-1ms,2d,4d), no two consecutive advances, for limit in 1..3 and window length d = 8 s (and d = 1.5 s, 0.4 s one level shallower); every shorter history is a prefix. A state is the history reaching it (fresh RateLimiter replayed under the paused clock). distinct_nontrivial = distinct (limit, decision vector) pairs observed.")));
+        "every history of exactly {depth} events over attempt(A|B|C) and advance(d/4,d/2,d-1ms,d,d+1ms,2d-1ms,2d,4d), no two consecutive advances, for limit in 1..3 and window length d = 8 s (and d = 1.5 s, 0.4 s one level shallower); every shorter history is a prefix; the same enumeration two levels shallower on a limiter whose uptime crosses 2^31 ms and 2^32 ms during the history; every history of one address of 4 (thorough 5) events with 9000 addresses never seen before attempting once each at every position. A state is the history reaching it (fresh RateLimiter replayed under the paused clock). distinct_nontrivial = distinct (limit, decision vector) pairs observed.")));
     rep.sample(json!({"history": ev_json(&[Ev::Att(0), Ev::Att(0), Ev::Adv(2), Ev::Att(1), Ev::Att(0), Ev::Adv(6), Ev::Att(0)]), "limit": 1}));
     rep.sample(json!({"history": ev_json(&jobs[0]), "limit": 2}));
     rep.assume("time is tokio's paused clock; inter-arrival times are the stated alphabet (real-valued time in between is represented by the +-1 ms neighbours of d and 2d)");
